@@ -30,6 +30,7 @@ func runC06(c *Ctx) {
 	c06ResponseLocks(c)
 	c06Gen(c)
 	rootOnce(c)
+	scanTotal(c)
 }
 
 // guardedFields lists struct fields and the mutex field that must be held to touch them.
